@@ -830,3 +830,26 @@ impl<'g, G: AffineRepr, T: BorrowMut<Transcript>> Prover<'g, G, T> {
         Ok((proof, self.transcript))
     }
 }
+
+/// Verification-only witness overwrite (guarded, add-only).
+#[cfg(feature = "verif-hooks")]
+impl<'g, G: AffineRepr, T: BorrowMut<Transcript>> Prover<'g, G, T> {
+    /// Overwrite the (left, right, out) assignment of multiplication gate `i`, so that a
+    /// gate-violating witness can be pushed through the unmodified proving code.
+    pub fn verif_set_gate(
+        &mut self,
+        i: usize,
+        l: G::ScalarField,
+        r: G::ScalarField,
+        o: G::ScalarField,
+    ) {
+        self.secrets.a_L[i] = l;
+        self.secrets.a_R[i] = r;
+        self.secrets.a_O[i] = o;
+    }
+
+    /// Read the (left, right, out) assignment of multiplication gate `i`.
+    pub fn verif_get_gate(&self, i: usize) -> (G::ScalarField, G::ScalarField, G::ScalarField) {
+        (self.secrets.a_L[i], self.secrets.a_R[i], self.secrets.a_O[i])
+    }
+}
